@@ -629,4 +629,44 @@ pub(crate) mod kani_verif {
     limits_harness!(c14_limits_L2small_l3, 3);
     // @h name=c14_limits_default_l2 props=C14,C11 tier=extended kind=proved cfg=w8 timeout=1800 funcs=hss_keygen contract="W8-minimum build, 2-level lists"
     limits_harness!(c14_limits_default_l2, 2);
+
+    // ------------------------------------------------------------------ InMemoryHssPublicKey::new (C02 / C06)
+    /// Kani pair of the Verus contract in v2_parsers (`Some <=> rfc_hss_pub_ok`): RFC 8554 section 6.1, the HSS public key is
+    /// u32(L) || u32(lms type) || u32(lmots type) || I (16) || T[1] (n) and nothing else; total, for every byte string <= 64 bytes.
+    fn check_hss_pub_exact<HF: HashChain>() {
+        let buf: [u8; 64] = kani::any();
+        let len: usize = kani::any();
+        kani::assume(len <= 64);
+        let n = HF::OUTPUT_SIZE as usize;
+        let r = InMemoryHssPublicKey::<HF>::new(&buf[..len]);
+        if len != 4 + 4 + 4 + 16 + n {
+            assert!(r.is_none(), "a public key that is shorter or longer than u32(L) || LMS public key is refused");
+        }
+        if let Some(ref k) = r {
+            assert!(k.level as u32 == u32::from_be_bytes([buf[0], buf[1], buf[2], buf[3]]), "level word");
+            let lms = u32::from_be_bytes([buf[4], buf[5], buf[6], buf[7]]);
+            let ots = u32::from_be_bytes([buf[8], buf[9], buf[10], buf[11]]);
+            assert!((lms >= 5 && lms <= 9) || lms == 1, "LMS type code of the table (1 = the 4-leaf hook height)");
+            assert!(ots >= 1 && ots <= 4, "LM-OTS type code of the table");
+        }
+        kani::cover!(r.is_some(), "a well-formed key is accepted");
+        kani::cover!(len == 4 + 4 + 4 + 16 + n + 1, "one byte too long reachable");
+    }
+    macro_rules! hss_pub_harness {
+        ($name:ident, $h:ty) => {
+            #[kani::proof]
+            #[kani::stub(zeroize::optimization_barrier, no_barrier)]
+            #[kani::stub(<[u8; 32] as tinyvec::Array>::default, fast_default)]
+            #[kani::unwind(70)]
+            fn $name() {
+                check_hss_pub_exact::<$h>();
+            }
+        };
+    }
+    // @h name=c02_hss_pub_exact_n16 props=C02,C06! tier=quick kind=proved cfg=default timeout=900 funcs=InMemoryHssPublicKey::new;InMemoryLmsPublicKey::new contract="Some only for exactly 44 bytes with table type codes; total; every byte string of length 0..64; n=16"
+    hss_pub_harness!(c02_hss_pub_exact_n16, crate::hasher::sha256::Sha256_128);
+    // @h name=c02_hss_pub_exact_n24 props=C02,C06! tier=quick kind=proved cfg=default timeout=900 funcs=InMemoryHssPublicKey::new;InMemoryLmsPublicKey::new contract="same, exactly 52 bytes; n=24"
+    hss_pub_harness!(c02_hss_pub_exact_n24, crate::hasher::sha256::Sha256_192);
+    // @h name=c02_hss_pub_exact_n32 props=C02,C06! tier=quick kind=proved cfg=default timeout=900 funcs=InMemoryHssPublicKey::new;InMemoryLmsPublicKey::new contract="same, exactly 60 bytes; n=32"
+    hss_pub_harness!(c02_hss_pub_exact_n32, crate::hasher::sha256::Sha256_256);
 }
